@@ -19,7 +19,10 @@ def describe(e):
 
 def run_pairs(pid, tier, seed, ops, nconf, stride, only_nonuniform=False, l1_recheck=200, general=False, v=None):
     """Returns (verdict, coverage dict pieces).  general=True: the general-slope universe (answers by PlanarGeneral)."""
-    if general:
+    if general == "holes":
+        shapes, spath, pairs, metas = universe.build_holes(tier)
+        out = os.path.join(vlib.BUILD, "work", pid, "holes")
+    elif general:
         shapes, spath, pairs, metas = universe.build_general(tier)
         out = os.path.join(vlib.BUILD, "work", pid, "general")
     else:
@@ -107,6 +110,24 @@ GENERAL_RULE = ("general slopes: two- and three-point lines, triangles and simpl
                 "replayed like the octilinear universe")
 
 
-def general_cov(cov):
+HOLES_RULE = ("structured holes: on the 10x10 lattice a square exterior with every ordered pair and (every third) ordered triple of pairwise "
+              "disjoint holes from a catalogue of six (small, wide, tall, triangular boxes; the order of the holes is part of the shape) as "
+              "receivers, against every lattice point, unit and full-width segments, bent lines, unit and 2x2 boxes, the plugs of the holes "
+              "and the exterior (Gen_ShapesH); answers by PlanarGeneral; replayed like the other universes")
+
+
+def general_cov(cov, rule=None):
     return {k: cov[k] for k in ("states", "transitions", "evaluations", "replayed_pairs", "universe", "mismatching_calls", "explained_by_L2",
-                                "configurations_per_pair") if k in cov} | {"rule": GENERAL_RULE}
+                                "configurations_per_pair") if k in cov} | {"rule": rule or GENERAL_RULE}
+
+
+def extra_universes(pid, tier, seed, ops, nconf, stride, v, cov, **kw):
+    """the general-slope and the structured-holes universes, added to the coverage of the octilinear run"""
+    for name, g, rule in (("general_slopes", True, GENERAL_RULE), ("structured_holes", "holes", HOLES_RULE)):
+        # every receiver of the holes universe is a polygon with holes (the sampled class): sample it less thinly
+        v, gcov, _ = run_pairs(pid, tier, seed, ops, nconf, max(1, stride // 8) if g == "holes" else stride, general=g, v=v, **kw)
+        cov[name] = general_cov(gcov, rule)
+        cov["evaluations"] += gcov["evaluations"]
+        cov["distinct_nontrivial"] += gcov["distinct_nontrivial"]
+    cov["known_finding_hits"] = v.known_hits
+    return v
